@@ -56,6 +56,18 @@ def gen_template(rng, i):
             arrays[p] = (rr, cc)
             lines.append("float array %s[%d, %d] =\n    {%s}" % (nm, rr, cc, p))
             g.vars[nm] = ("array", "float", rr, cc, [None] * (rr * cc))
+        elif r < 0.44:
+            # parameter expressions that fold to a constant while parsing: {p}*0, {p}**0, {p}-{p}; with a loop variable
+            # that takes the value 0 the folding happens in one iteration only
+            p = rng.choice(g.params) if g.params and rng.random() < 0.5 else g.fresh(rng.choice(["phi", "amp", "w"]))
+            if p not in g.params:
+                g.params.append(p)
+                lines.append("Rgate({%s}) | 0" % p)      # a use that does not fold (the clauses about missing values need one)
+            x = g.fresh("m")
+            form = rng.choice(["Rgate({%s} * 0) | 0", "Kgate(scale={%s} ** 0, r=0 * {%s}) | 1" % ("%s", p), "Dgate({%s} - {%s}, {%s}) | 0" % ("%s", p, p),
+                               "for int %s in 0:3\n    Rgate({%s} * %s) | %s" % (x, "%s", x, x),
+                               "for int %s in 0:2\n    Kgate(scale={%s} ** %s, l=[%s * {%s}, 1]) | 0" % (x, "%s", x, x, p)])
+            lines.append(form % p)
         elif r < 0.5:
             x = g.fresh("i")
             lines.append("for int %s in %d:%d\n    %s" % (x, 0, rng.randint(1, 3), g.statement(2, True, loopvar=x, loopkind="int")))
